@@ -393,6 +393,7 @@ class Step:
                                 # the replacement is an unresolved alias: following it by path, unresolved like it, is the
                                 # all-or-nothing form of "follows" (C06); dereferencing reaches the replacement
                                 w.m_target[al_label] = None
+                                w.m_lookup(apath).target_path = at
                                 w.loose.discard(al_label)
                                 continue
                             if alias._target is not new:
@@ -413,6 +414,7 @@ class Step:
                                 w.loose.discard(al_label)
                             elif new.__class__.__name__ == "Alias" and alias._target is None and alias.target_path == at:
                                 w.m_target[al_label] = None
+                                w.m_lookup(apath).target_path = at  # (it now names the slot of the replacement, not the intermediate alias any more)
                                 w.loose.discard(al_label)
                         elif was_target not in (None, "?") and was_target != new_label and alias._target is new:
                             # it did not point at the replaced object (a stale back-reference: re-targeted elsewhere since)
